@@ -13,6 +13,9 @@ func checkC02(p *Prog, r *Report) {
 		}
 	}
 	checkAolExportLoopBounds(p, r, func(rule, rest string) string { return rule + ":C02:" + rest })
+	// a removed writer does not come back through an export that still carries it, and the keys are encoded as they are
+	checkExportBuildsFreshContainers(p, r, func(rule, rest string) string { return rule + ":C02:" + rest }, "x/aol")
+	checkNoLostReceiverWrites(p, r, "C02", "x/aol/types", func(fn *ssa.Function) bool { return inExactPkgs(fn, "x/aol/types") })
 	checkNoDroppedErrors(p, r, "C02", "x/aol/keeper, x/aol/types", func(fn *ssa.Function) bool { return InPkgs(fn, "x/aol/keeper", "x/aol/types") })
 	checkNoNilWrap(p, r, "C02", "x/aol/keeper, x/aol/types", func(fn *ssa.Function) bool { return InPkgs(fn, "x/aol/keeper", "x/aol/types") })
 	r.Explain = "Decided statically: D1 every AOL store mutation in a message handler is dominated (all paths) by the membership/existence guard on the same key datum (HasTopic/HasWriter with the polarity the schema requires); D2 the identity that authorises (owner component of the written keys; for add-record the writer component of the dominating HasWriter key) is parsed from a message field that GetSigners returns on every path; D3 mutators are called only from handlers and InitGenesis; D4 accessor families agree on prefix and key type so the guard and the delete address the same store key; D5 the ante chain contains ValidateBasic -> SetPubKey -> SigVerification -> IncrementSequence in this order and is installed by New."
